@@ -1,25 +1,41 @@
 import XzVerif.Proofs.Lzma2RoundTrip
 import XzVerif.Proofs.Chunk
+import XzVerif.Proofs.Writer2
 /-
   C08 — LZMA2 writer: lossless for any call history; Flush yields a decodable prefix.
 
-  The LZMA2 writer emits a sequence of chunks; a Flush ends the current chunk.  What the sink
-  holds after a successful Flush is `chunksBytes` of the chunks so far, and after Close the same
-  followed by the end marker.  `C08_chunks_roundtrip` proves, for *every* chunk list that is
-  well-formed (`ChunksOk`: legal kind sequence, applicable operations, field widths respected) —
-  any number of chunks, raw or compressed in any mixture, with or without state/dictionary
-  resets — that the reader model (Go rules and strict format rules alike) decodes the emitted
-  bytes plus end marker to exactly the emitter's content, consumes every byte and ends cleanly,
-  the coder state carrying over from chunk to chunk (also across raw chunks).  Since every
-  prefix of a `ChunksOk` list is `ChunksOk`, this is also the Flush clause.
-  `C08_writer_sequences_legal` (from Props/C16) shows that the writer's chunk-type bookkeeping
-  only produces legal sequences.
+  **Model.** `Model/Writer2.lean` is an executable state machine for `Writer2.Write/Flush/Close`,
+  `flushChunk`, `writeChunk` (raw vs compressed), `encoder.Write/compress/writeOp/Close/Reopen`, the
+  dictionary space arithmetic of `encoderDict`, the byte limit of the range coder (`ErrLimit`, also in the
+  middle of an operation and inside `rangeEncoder.Close`) and the chunk-state bookkeeping, over an
+  **abstract match finder** (`W2.Matcher`: any state, any proposal function).  The correspondence check
+  replays the proposals of the real match finders into this model and requires the per-call results, the
+  sink length after every call and the sink bytes to be identical (functional tie, every run).
 
-  Not proved: that Writer2's Write/Flush/Close bookkeeping produces exactly such chunk lists from
-  a call history (what ends up in which chunk, `written()`, the 64 KiB / 2 MiB cuts, `OpsFit`),
-  and that the match finders deliver applicable operations.  Both are tied by the correspondence
-  check (byte-identical re-encoding of the parsed chunks of real outputs over generated call
-  histories; prefix decoding after every Flush).  Hence `_partial`.
+  **Theorems (for every configuration `Writer2Config.Verify` accepts, every match finder whose proposals are
+  applicable — `W2.MatcherOk` —, every call history, no bound):**
+  * `C08_flush_prefix_decodes`: after a successful history ending with `Flush`, sink + end marker decodes,
+    under the format's strict rules and under the Go reader's rules, to exactly the data written, every
+    byte consumed.
+  * `C08_close_decodes`: after a successful history ending with `Close` the sink decodes to exactly the
+    data written followed by a clean end.
+  * `C08_no_call_fails`: **no call fails** — no panic branch, no "other" error, no exhausted loop, and,
+    because `opLenMargin ≥ 25` (regenerated constant; an operation costs at most 20 range-coder bytes,
+    `op_digits_bound`, and closing needs 5), no `ErrLimit`.  With the margin the pinned tree had (16) this
+    theorem does not go through; the excluded point was run against the real code and is defect F17
+    (DESIGN.md §7), repaired by the commit that raised the constant.
+  * `C08_first_error_is_limit`: independently of the margin, the only way a call can fail is that byte limit.
+  * `C08_write_takes_all`, `C08_after_close`, `C08_idle_flush`: a successful Write took every byte; calls
+    after Close fail with errClosed and change nothing; a Flush with nothing pending emits nothing.
+  * `C08_refines`: the sink always holds the emission of a well-formed chunk list (`ChunksOk`) whose
+    content is the accepted data — this is what the three decode theorems rest on, via
+    `C08_chunks_roundtrip` (L4: every well-formed chunk list round-trips).
+  `C08_writer_sequences_legal` (Props/C16): the chunk-type bookkeeping only produces legal sequences.
+
+  **Not proved** (hence still `partial`): that HashTable4 and BinaryTree satisfy `MatcherOk` (their
+  candidate verification via `buffer.matchLen` is proved sound at ring level in Proofs/Ring.lean; the
+  composition with the hash-table / tree bookkeeping is tied by the correspondence check, which judges
+  every recorded proposal), and the sink never failing (C09).
 -/
 namespace Props.C08
 open Lzma2 Lzma Rc Spec
@@ -32,6 +48,78 @@ theorem C08_chunks_roundtrip (strict : Bool) (cap : Nat) (cs : Array Chunk)
       r.seq = .ended := by
   obtain ⟨r, h1, _, h3, h4, h5, _⟩ := decode_emit strict cap cs hok
   exact ⟨r, h1, h3, h4, h5⟩
+
+open W2 in
+/-- Flush clause: sink + end marker decodes to exactly the accepted data (both rule sets) -/
+theorem C08_flush_prefix_decodes {σ : Type} (strict : Bool) (c : Cfg) (hc : CfgOk c) (M : Matcher σ)
+    (hM : MatcherOk c M) (m0 : σ) (calls : List Call) (hnc : ∀ call ∈ calls, ¬ (call matches .close))
+    (hok : allOk (run c M (init c m0) (calls ++ [.flush])).2) :
+    let w := (run c M (init c m0) (calls ++ [.flush])).1
+    ∃ r, decode strict c.dictCap (w.out.push 0) 0 ByteArray.empty = (r, .eof) ∧
+      r.h.out = payload calls ∧ r.pos = w.out.size + 1 :=
+  W2.flush_prefix_decodes strict c hc M hM m0 calls hnc hok
+
+open W2 in
+/-- Close clause: the complete sink decodes to exactly the accepted data and a clean end -/
+theorem C08_close_decodes {σ : Type} (strict : Bool) (c : Cfg) (hc : CfgOk c) (M : Matcher σ)
+    (hM : MatcherOk c M) (m0 : σ) (calls : List Call) (hnc : ∀ call ∈ calls, ¬ (call matches .close))
+    (hok : allOk (run c M (init c m0) (calls ++ [.close])).2) :
+    let w := (run c M (init c m0) (calls ++ [.close])).1
+    ∃ r, decode strict c.dictCap w.out 0 ByteArray.empty = (r, .eof) ∧
+      r.h.out = payload calls ∧ r.pos = w.out.size ∧ r.seq = .ended :=
+  W2.close_decodes strict c hc M hM m0 calls hnc hok
+
+open W2 in
+/-- no call of any history fails (uses the regenerated constant `opLenMargin ≥ 25`) -/
+theorem C08_no_call_fails {σ : Type} (c : Cfg) (hc : CfgOk c) (M : Matcher σ) (hM : MatcherOk c M) (m0 : σ)
+    (calls : List Call) (hnc : ∀ call ∈ calls, ¬ (call matches .close)) (call : Call) :
+    allOk (run c M (init c m0) (calls ++ [call])).2 :=
+  W2.no_error_of_margin (by decide) c hc M hM m0 calls hnc call
+
+open W2 in
+/-- whatever the margin: the only possible failure is the byte limit of the range coder -/
+theorem C08_first_error_is_limit {σ : Type} (c : Cfg) (hc : CfgOk c) (M : Matcher σ) (hM : MatcherOk c M)
+    (m0 : σ) (calls : List Call) (hnc : ∀ call ∈ calls, ¬ (call matches .close)) (call : Call)
+    (hok : allOk (run c M (init c m0) calls).2) :
+    let r := (step c M (run c M (init c m0) calls).1 call).2
+    r.err = none ∨ r.err = some .limit :=
+  W2.first_error_is_limit c hc M hM m0 calls hnc call hok
+
+open W2 in
+theorem C08_write_takes_all {σ : Type} (c : Cfg) (M : Matcher σ) (w : WSt σ) (p : ByteArray)
+    (h : (step c M w (.write p)).2.err = none) : (step c M w (.write p)).2.n = p.size :=
+  W2.write_ok_all c M w p h
+
+open W2 in
+theorem C08_after_close {σ : Type} (c : Cfg) (M : Matcher σ) (w : WSt σ) (call : Call) (h : w.closed = true) :
+    step c M w call = (w, { err := some .closed }) :=
+  W2.after_close c M w call h
+
+open W2 in
+theorem C08_idle_flush {σ : Type} (c : Cfg) (M : Matcher σ) (w : WSt σ) (h : w.written = 0)
+    (hcl : w.closed = false) : step c M w .flush = (w, {}) :=
+  W2.idle_flush c M w h hcl
+
+open W2 in
+/-- the sink is always the emission of a well-formed chunk list whose content is the accepted data -/
+theorem C08_refines {σ : Type} (strict : Bool) (c : Cfg) (hc : CfgOk c) (M : Matcher σ) (hM : MatcherOk c M)
+    (m0 : σ) (calls : List Call) (hnc : ∀ call ∈ calls, ¬ (call matches .close))
+    (hok : allOk (run c M (init c m0) calls).2) :
+    let w := (run c M (init c m0) calls).1
+    ChunksOk strict (e0 c.dictCap) .init w.chunks.toList ∧
+    w.out = chunksBytes (e0 c.dictCap) w.chunks.toList ∧
+    (w.chunks.foldl emitChunk (e0 c.dictCap)).h.out = w.hist.extract 0 w.start ∧
+    w.hist ++ w.look = payload calls :=
+  W2.run_refines strict c hc M hM m0 calls hnc hok
+
+/-- the hypotheses are satisfiable: the default configuration is valid and the literal-only match finder
+    (always proposes the next byte) is applicable -/
+example : W2.CfgOk { props := ⟨3, 0, 2⟩, dictCap := 8388608, bufSize := 4096 } := by
+  unfold W2.CfgOk PropsOk; decide
+
+example (c : W2.Cfg) : W2.MatcherOk c (σ := Unit) ⟨fun m _ look _ => (.lit (look.get! 0).toNat, m)⟩ := by
+  intro m hist look s h
+  exact ⟨h, rfl⟩
 
 /-- the writer's chunk-type choice never leaves the legal sequences (see Props/C16) -/
 theorem C08_writer_sequences_legal : ∀ s ∈ Proofs.Chunk.live, ∀ raw : Bool,
